@@ -58,10 +58,15 @@ extern thread_local volatile int tl_armed;
 extern thread_local Fault tl_fault;
 void thread_init(); // alternate signal stack for the calling thread
 
+// unspecified-at-entry registers are filled with garbage before every guarded call (asm/cpu_shim.asm); mask from the host's usable state
+extern "C" void verif_poison_vregs(unsigned mask);
+extern unsigned g_poison_mask; // 0x100 = disabled
+
 template <typename F> __attribute__((noinline)) Fault call(F &&f) {
 	// no local of the caller is modified between sigsetjmp and the jump
 	if (sigsetjmp(tl_jb, 1) == 0) {
 		tl_armed = 1;
+		if (g_poison_mask < 0x100) verif_poison_vregs(g_poison_mask);
 		f();
 		tl_armed = 0;
 		return Fault();
@@ -78,6 +83,7 @@ template <typename F> __attribute__((noinline)) Fault call_timed(F &&f, unsigned
 	if (sigsetjmp(tl_jb, 1) == 0) {
 		tl_armed = 1;
 		alarm(seconds);
+		if (g_poison_mask < 0x100) verif_poison_vregs(g_poison_mask);
 		f();
 		alarm(0);
 		tl_armed = 0;
